@@ -94,6 +94,11 @@ SemBody(p, b, pc, x) ==
                             IF x2.ce = <<>> THEN Res("need", x2)     \* completion not reported yet
                             ELSE IF Head(x2.ce) THEN Continue(ErrOut([x2 EXCEPT !.ce = Tail(@)], <<>>))
                             ELSE Continue([x2 EXCEPT !.ce = Tail(@)])
+                       [] kind = "pendq" ->
+                            IF Len(r.vals) # 2 \/ ~IsNum(r.vals[2]) THEN Continue(ErrOut(x1, <<>>))
+                            ELSE IF x1.ce = <<>> THEN Res("need", x1)
+                            ELSE IF Head(x1.ce) THEN Continue(ErrOut([x1 EXCEPT !.ce = Tail(@)], <<>>))
+                            ELSE Continue([x1 EXCEPT !.ce = Tail(@)])
                        [] OTHER -> Continue(ErrOut(x1, <<>>))
       [] stmt.k = "call" ->
            LET r == Eval(stmt.e, env) IN
